@@ -53,6 +53,7 @@ var c24Anchors = []string{
 	"(*dpos/state.Arbiters).getCandidateIndexAtRandom",
 	"(*dpos/state.Arbiters).getRandomDposV2Producers",
 	"(*dpos/state.Arbiters).getSortedProducers",
+	"(*dpos/state.Producer).GetTotalDPoSV2VoteRights",
 }
 
 // math/rand package-level functions that do not touch the global source.
@@ -101,7 +102,11 @@ type Facts struct {
 	AllowedWhy []string               `json:"allowed_why"`
 	Anchors    map[string]int         `json:"anchors"`
 	Secure     []int                  `json:"secure,omitempty"`
-	Direct     []int                  `json:"direct,omitempty"` // functions checked for direct references only
+	Direct     []int                  `json:"direct,omitempty"`  // functions checked for direct references only
+	Clock      []int                  `json:"clock,omitempty"`   // clock / pid readers
+	Barrier    []int                  `json:"barrier,omitempty"` // nodes whose out-edges are cut for the clock rule
+	RandErr    []randErrSite          `json:"rand_err,omitempty"`
+	FloatSums  []floatSum             `json:"float_sums,omitempty"`
 	Extra      map[string]interface{} `json:"extra,omitempty"`
 }
 
@@ -227,7 +232,8 @@ func runC24(repo, coq, js string) {
 	}
 	sort.Ints(bad)
 
-	f := &Facts{Property: "C24", Repo: repo, Names: g.Names, Pos: g.Pos, Pkg: g.Pkg, Succ: g.Succ, Sites: g.sites(),
+	fsums := floatMapSums(p, g, append([]int{}, sources...))
+	f := &Facts{Property: "C24", FloatSums: fsums, Repo: repo, Names: g.Names, Pos: g.Pos, Pkg: g.Pkg, Succ: g.Succ, Sites: g.sites(),
 		Sources: sources, Bad: bad, Allowed: a2, AllowedWhy: w2, Anchors: anchors,
 		Extra: map[string]interface{}{"consensus_packages": c24Consensus, "benign_packages": c24BenignPkgs, "benign_functions": c24BenignFuncs,
 			"source_packages": srcPkgs}}
